@@ -56,10 +56,15 @@ Expect(e) ==
                          \* a widget on the route draws a surface of its own inside its surface
                          held |-> Held(st, e) # {st.focus},
                          selfnest |-> \E w \in Range(StepChain(T, st, e)) : T.wraps[w],
-                         overlap |-> e.in.t = "mouse" /\ Overlap(st.lay, <<e.in.x, e.in.y>>)]
+                         overlap |-> e.in.t = "mouse" /\ Overlap(st.lay, <<e.in.x, e.in.y>>),
+                         \* context for signatures: siblings of equal z-index overlap under the pointer (which is on top is open);
+                         \* the chain under the resting pointer had been established for the last drawn frame
+                         tie |-> e.in.t = "mouse" /\ Cardinality(MouseChains(T, st, e.in.x, e.in.y)) > 1,
+                         rest |-> e.in.t = "mouse" /\ Settled(T, st, e.in.x, e.in.y)]
     [] e.ev = "frame" -> [focus |-> st.focus, hover |-> st.hover, ptr |-> st.ptr, redraw |-> st.redraw, refresh |-> st.refresh,
                           moved |-> st.moved, tfin |-> st.tfin, overlap |-> Overlap(e.lay, st.ptr),
                           relaid |-> st.relaid \/ T.pars[e.lay] # T.pars[st.lay],
+                          tie |-> Cardinality(FrameChains(T, st, e)) > 1, rest |-> FrameRests(T, st, e),
                           selfnest |-> st.ptr # <<>> /\ \E w \in Range(HitChain(At(T, e.lay), T.lays[e.lay], st.ptr[1], st.ptr[2])) : T.wraps[w],
                           undrawn |-> ~Present(At(T, e.lay), T.lays[e.lay], st.focus)]
     [] OTHER -> [focus |-> st.focus]
